@@ -156,7 +156,8 @@ namespace ratio
             const auto &it_it = exprs.find(name);
             if (it_it == exprs.cend())
             {
-                assert(!get_core().get_ov_theory().value(ev).empty());
+                if (get_core().get_ov_theory().value(ev).empty())
+                    throw inconsistency_exception(); // the variable has no allowed value left..
                 if (auto vs = get_core().get_ov_theory().value(ev); vs.size() == 1)
                     return (static_cast<item *>(*vs.cbegin()))->get(name);
                 else
@@ -177,10 +178,8 @@ namespace ratio
                         for (const auto &val_not : val_vars)
                             if (val != val_not)
                                 for (const auto &v : val_not.second)
-                                {
-                                    [[maybe_unused]] bool nc = cr.get_sat_core().new_clause({!var, !v});
-                                    assert(nc);
-                                }
+                                    if (!cr.get_sat_core().new_clause({!var, !v}))
+                                        throw inconsistency_exception(); // the variable has already been given two different values..
                     }
                     var_expr e = get_core().new_enum(get_type().get_field(name).get_type(), c_vars, c_vals);
                     exprs.insert({name, e});
